@@ -370,11 +370,41 @@ func main() {
 			runExhaust(r)
 		case "blocked":
 			runBlocked(r, tmo)
+		case "typed":
+			r.Case()
+			for _, f := range runTyped(*c.Typed, tmo) {
+				r.Fail(f.key, f.what, c)
+			}
+		case "period":
+			r.Case()
+			for _, f := range runPeriod(c) {
+				r.Fail(f.key, f.what, c)
+			}
+		case "scale":
+			r.Case()
+			for _, f := range runScale(c, tmo) {
+				r.Fail(f.key, f.what, c)
+			}
+		case "aged":
+			r.Case()
+			for _, f := range startAged().finish(tmo) {
+				r.Fail(f.key, f.what, c)
+			}
 		default:
 			runConc(r, c, tmo)
 		}
 		r.Sample(c)
 		return
+	}
+	typedLeg(r, tmo)
+	if r.Search {
+		aged := startAged()
+		searchLegs(r, tmo)
+		if r.Failed() {
+			r.Note("the search legs found a failing input; the ordinary generators were not run again")
+			return
+		}
+		defer agedLeg(r, aged, tmo) // after the ordinary generators: by then the calls are older than 60 s
 	}
 	bad := 0
 	n := r.Scale(400, 8000)
